@@ -1,2 +1,145 @@
--- driver stub for C15 (replaced when the model is built)
-def main : IO Unit := pure ()
+import PyramidModel.Prelude
+import PyramidModel.Cache
+/-! Driver for C15: one JSON case per line; the machine of `Cache.lean` is run under the deterministic
+schedule the harness forces on the real code.
+
+in : {"queries":[[query,key,[slot,…]],…], "regs":[[slot,view],…], "ops":[op,…], "proto":[b,b,b,b,b]?}
+     op = {"op":"reg","mods":[[slot,view|null],…]}                      whole registration, no pre-emption
+        | {"op":"lookup","q":query,"inject":null|{"at":"probe"|"write"|j,"mods":[…]}}
+              one `_find_views` call; a whole registration is injected after the cache reference was read
+              ("probe"), before the j-th `registered` call (j = 0,1,…), or with the lock held just before
+              the dict write ("write")
+        | {"op":"split","mods":[…],"after":m,"qs":[query,…]}
+              the registrar is pre-empted after its m-th adapter mutation; the lookups of `keys` run to
+              completion there; then the registrar finishes
+out: {"ops":[{"res":[[view,…],…], "inj":bool, "cur":[[key,[view,…]],…] (sorted), "coh":bool,
+              "before":[[…],…], "after":[[…],…]},…]}
+     res/before/after have one entry per lookup of the op (before/after = SPEC scan of the registrations
+     before / after the op); coh = every entry of the current dict equals the spec scan of the current
+     registrations. -/
+open Pyr Pyr.Cache Lean
+
+def parseMods (j : Json) : Except String Mods := do
+  match j with
+  | .arr xs => xs.toList.mapM fun x => do
+      match x with
+      | .arr #[s, v] =>
+        let sl : Nat ← fromJson? s
+        let vv : Option Nat ← (match v with | .null => pure none | v => do let n : Nat ← fromJson? v; pure (some n))
+        pure (sl, vv)
+      | _ => throw "bad mod"
+  | _ => throw "bad mods"
+
+def regsOfList (l : List (Nat × Nat)) : Regs := fun s => (l.find? (·.1 == s)).map (·.2)
+
+def cfgOfList (l : List (Nat × Nat × List Nat)) : Cfg :=
+  { ck := fun q => ((l.find? (·.1 == q)).map (·.2.1)).getD 0,
+    slots := fun q => ((l.find? (·.1 == q)).map (·.2.2)).getD [] }
+
+def sortDict (d : Dict) : List (Nat × List Nat) := (d.toArray.qsort (fun a b => a.1 < b.1)).toList
+
+def dictJson (d : Dict) : Json := toJson ((sortDict d).map fun e => Json.arr #[toJson e.1, toJson e.2])
+
+def coherentNow (cfg : Cfg) (qs : List Query) (s : St) : Bool :=
+  qs.all fun q => match (s.heap s.cur).get (cfg.ck q) with
+    | some v => v == scan s.regs (cfg.slots q)
+    | none => true
+
+/-- run thread `tid` until it is done or `fuel` steps were made; optionally stop when `stop pc` holds -/
+def runThread (P : Proto) (cfg : Cfg) (tid : Nat) (stop : PC → Bool) : Nat → St → St
+  | 0, s => s
+  | fuel + 1, s =>
+    match s.threads[tid]? with
+    | some t =>
+      match t.pc with
+      | .done _ _ => s
+      | pc => if stop pc then s else runThread P cfg tid stop fuel (step P cfg s (.thread tid))
+    | none => s
+
+def pcOf (s : St) (tid : Nat) : Option PC := (s.threads[tid]?).map (·.pc)
+
+def resOf (s : St) (tid : Nat) : List Nat := (result? s tid).getD []
+
+def main : IO Unit := jsonDriver fun j => do
+  let qj ← getField j "queries"
+  let ql : List (Nat × Nat × List Nat) ← match qj with
+    | .arr xs => xs.toList.mapM fun x => do
+        match x with
+        | .arr #[a, b, c] =>
+          let q : Nat ← fromJson? a
+          let k : Nat ← fromJson? b
+          let sl : List Nat ← fromJson? c
+          pure (q, k, sl)
+        | _ => throw "bad query"
+    | _ => throw "bad queries"
+  let rl : List (Nat × Nat) ← getAs j "regs"
+  let cfg := cfgOfList ql
+  let slots := cfg.slots
+  let P : Proto := match (getAs j "proto" : Except String (List Bool)) with
+    | .ok [a, b, c, d, e] => ⟨a, b, c, d, e⟩
+    | _ => Proto.good
+  let opsJ ← getField j "ops"
+  let ops ← match opsJ with
+    | .arr xs => pure xs.toList
+    | _ => throw "bad ops"
+  let mut s : St := init (regsOfList rl)
+  let mut outs : Array Json := #[]
+  for o in ops do
+    let kind : String ← getAs o "op"
+    let r0 := s.regs
+    let mut res : List (List Nat) := []
+    let mut keys : List Nat := []
+    let mut inj := false
+    if kind == "reg" then
+      let mods ← parseMods (← getField o "mods")
+      s := run P cfg s (atomicReg mods)
+    else if kind == "lookup" then
+      let k : Nat ← getAs o "q"
+      keys := [k]
+      let tid := s.threads.length
+      let fuel := (slots k).length + 6
+      s := step P cfg s (.spawn k)
+      let ij ← getField o "inject"
+      match ij with
+      | .null => s := runThread P cfg tid (fun _ => false) fuel s
+      | ij =>
+        let mods ← parseMods (← getField ij "mods")
+        let atJ ← getField ij "at"
+        -- advance to the injection point
+        match atJ with
+        | .str "probe" =>
+          s := step P cfg s (.thread tid)
+          inj := true
+        | .str "write" =>
+          s := runThread P cfg tid (fun pc => match pc with | .holding _ _ => true | _ => false) fuel s
+          inj := match pcOf s tid with | some (.holding _ _) => true | _ => false
+        | a =>
+          let jn : Nat ← fromJson? a
+          s := runThread P cfg tid (fun pc => match pc with | .scan _ i _ => i == jn | _ => false) fuel s
+          inj := match pcOf s tid with
+            | some (.scan _ i _) => i == jn && jn < (slots k).length
+            | _ => false
+        if inj then s := run P cfg s (atomicReg mods)
+        s := runThread P cfg tid (fun _ => false) fuel s
+      res := [resOf s tid]
+    else if kind == "split" then
+      let mods ← parseMods (← getField o "mods")
+      let m : Nat ← getAs o "after"
+      let ks : List Nat ← getAs o "qs"
+      keys := ks
+      s := step P cfg s (.begin mods)
+      s := run P cfg s (List.replicate (min m mods.length) .modify)
+      for k in ks do
+        let tid := s.threads.length
+        s := step P cfg s (.spawn k)
+        s := runThread P cfg tid (fun _ => false) ((slots k).length + 6) s
+        res := res ++ [resOf s tid]
+      s := run P cfg s (List.replicate mods.length .modify ++ [.finish])
+      inj := true
+    else throw "bad op"
+    outs := outs.push (Json.mkObj [
+      ("res", toJson res), ("inj", toJson inj), ("cur", dictJson (s.heap s.cur)),
+      ("coh", toJson (coherentNow cfg (ql.map (·.1)) s)),
+      ("before", toJson (keys.map fun k => scan r0 (slots k))),
+      ("after", toJson (keys.map fun k => scan s.regs (slots k)))])
+  return Json.mkObj [("ops", Json.arr outs)]
